@@ -85,3 +85,22 @@ Example C01_imm_line_example : forall l,
   Parser.parse_immediate ["0x7ff"%string] l = Parser.FOk (Items.EArith (Items.ANum 2047)) /\
   encode "lw" [AStr "x8"; AStr "sp"; AInt 2047] nil = Ok 2146509827.
 Proof. intro l. repeat split; vm_compute; reflexivity. Qed.
+
+(* ... and the branches and jal with a LITERAL offset (a label target is C03's business) *)
+Theorem C01_transfer_line_end_to_end :
+  forall l name toks it args w,
+  (exists rs1 rs2 tok v, In name EndToEnd.b_names /\ String.eqb rs1 "=" = false /\ is_int tok = true /\
+       Parser.parse_immediate [tok] l = Parser.FOk (Items.EArith (Items.ANum v)) /\ toks = [name; rs1; rs2; tok] /\
+       args = [AStr rs1; AStr rs2; AInt v] /\
+       it = Items.IInstr "BTypeInstruction" name [("rs1", Parser.R rs1); ("rs2", Parser.R rs2); ("imm", Items.FExpr (Items.EArith (Items.ANum v)))]%string false) \/
+  (exists rd tok v, In name EndToEnd.j_names /\ String.eqb rd "=" = false /\ is_int tok = true /\
+       Parser.parse_immediate [tok] l = Parser.FOk (Items.EArith (Items.ANum v)) /\ toks = [name; rd; tok] /\ args = [AStr rd; AInt v] /\
+       it = Items.IInstr "JTypeInstruction" name [("rd", Parser.R rd); ("imm", Items.FExpr (Items.EArith (Items.ANum v)))]%string false) ->
+  In name base_mnemonics -> encode name args nil = Ok w ->
+  exists ops i,
+    Parser.parse_item l toks = Parser.FOk it /\
+    Passes.assemble_items ((l, it) :: nil) nil nil false =
+      Passes.Done {| Passes.r_chunks := (l, Passes.CBytes (Passes.le_bytes 4 w)) :: nil; Passes.r_consts := nil; Passes.r_labels := nil |} /\
+    0 <= w < 2 ^ 32 /\ operands32 name args nil = Some ops /\ denote32 name ops = Some i /\ decode32 w = Some i.
+Proof. exact EndToEnd.transfer_line_end_to_end. Qed.
+Print Assumptions C01_transfer_line_end_to_end.
